@@ -129,6 +129,11 @@ Step(t) ==
          /\ Goto(t, "saveWrite", s)
          /\ UNCHANGED <<store, cnt, res, nblob>>
      [] s.pc = "afterWrite" -> Finish(t, "ok") /\ UNCHANGED <<store, bytes, cnt, nblob>>
+     \* ---- ReadFile: the look-up, then the bytes of the file found as they are at that moment (writes of other handles land
+     \*      in the shared blob before their write-back transaction, so they are visible here) ---------------------------------
+     [] s.pc = "afterLookup" /\ o.op = "readfile" ->
+         /\ IF s.found = None THEN Finish(t, "ENOENT") ELSE Finish(t, bytes[s.found])
+         /\ UNCHANGED <<store, bytes, cnt, nblob>>
      \* ---- Remove ----------------------------------------------------------------------------------------------
      [] s.pc = "afterLookup" /\ o.op = "remove" ->
          IF s.found = None THEN Finish(t, "ENOENT") /\ UNCHANGED <<store, bytes, cnt, nblob>>
